@@ -308,8 +308,19 @@ def load_known():
         return json.load(f)
 
 
+def _prune_gendir(ctx):
+    """Compiled case files are bulky (gigabytes in the thorough tier) and never needed again: keep the .v sources for replay only."""
+    try:
+        for fn in os.listdir(ctx.gendir):
+            if fn.endswith((".vo", ".vok", ".vos", ".glob", ".aux")) and fn.lstrip(".").startswith("cases_"):
+                os.remove(os.path.join(ctx.gendir, fn))
+    except OSError:
+        pass
+
+
 def finish(ctx):
     """Classify, print the VIOLATION / KNOWN-FINDING lines, write evidence, return exit status."""
+    _prune_gendir(ctx)
     known = load_known()
     known_keys = {(k["property"], k["key"]): k for k in known.get("findings", [])}
     violations = 0
